@@ -408,3 +408,371 @@ Proof.
   destruct (inscription_id_value_roundtrip i0 i1 i2 H1 H2) as [E _]. rewrite E.
   destruct s; reflexivity.
 Qed.
+
+(* ---------------- UTXO entries ---------------- *)
+Definition range_ok (r : N * N) : Prop := fst r < P51 /\ fst r <= snd r /\ snd r - fst r < P37.
+Definition range_bytes (r : N * N) : list N := le_bytes 11 (fst r + (snd r - fst r) * P51).
+Definition ranges_raw (l : list (N * N)) : list N := flat_map range_bytes l.
+Definition count {A} (l : list A) : N := N.of_nat (length l).
+
+Lemma len_app a b : len (a ++ b) = len a + len b.
+Proof. unfold len. rewrite app_length. lia. Qed.
+
+Lemma ranges_raw_len l : len (ranges_raw l) = 11 * count l.
+Proof.
+  induction l as [|r l IH]; [reflexivity|].
+  unfold ranges_raw. cbn [flat_map]. fold (ranges_raw l). rewrite len_app, IH.
+  unfold range_bytes, len, count. rewrite le_bytes_length. cbn [length]. lia.
+Qed.
+
+Lemma ranges_raw_app a b : ranges_raw (a ++ b) = ranges_raw a ++ ranges_raw b.
+Proof. apply flat_map_app. Qed.
+
+Lemma store_ranges_ok l : Forall range_ok l -> store_ranges l = Ok (ranges_raw l).
+Proof.
+  induction 1 as [|[a b] l (Ha & Hab & Hd) Hl IH]; [reflexivity|]. cbn [fst snd] in *.
+  cbn [store_ranges]. rewrite (sat_range_store_ok a b Ha Hab). cbn [bind]. rewrite IH. reflexivity.
+Qed.
+
+Lemma load_ranges_raw l : Forall range_ok l -> forall fuel, (length l <= fuel)%nat ->
+  load_ranges fuel (ranges_raw l) = Ok l.
+Proof.
+  induction 1 as [|[a b] l (Ha & Hab & Hd) Hl IH]; intros fuel Hf; cbn [fst snd] in *.
+  - destruct fuel; [reflexivity|]. cbn [load_ranges]. reflexivity.
+  - destruct fuel as [|f]; [cbn in Hf; lia|]. cbn [load_ranges].
+    unfold ranges_raw. cbn [flat_map]. fold (ranges_raw l).
+    assert (L : length (range_bytes (a, b)) = 11%nat) by apply le_bytes_length.
+    rewrite len_app. unfold len at 1. rewrite L.
+    destruct (N.ltb_spec (N.of_nat 11 + len (ranges_raw l)) 11) as [H|_]; [lia|].
+    rewrite (firstn_app_l 11) by exact L. rewrite (skipn_app_l 11) by exact L.
+    unfold range_bytes at 1. cbn [fst snd]. rewrite sat_range_load_le.
+    replace ((a + (b - a) * P51) mod P51) with a by (unfold P51 in *; lia).
+    replace ((a + (b - a) * P51) / P51 mod P37) with (b - a) by (unfold P51, P37 in *; lia).
+    replace (a + (b - a)) with b by lia.
+    cbn [bind]. rewrite IH by (cbn in Hf; lia). reflexivity.
+Qed.
+
+Lemma ranges_of_raw l : Forall range_ok l -> ranges_of (ranges_raw l) = Ok l.
+Proof.
+  intros H. unfold ranges_of. apply load_ranges_raw; [exact H|].
+  pose proof (ranges_raw_len l) as E. unfold len, count in E. lia.
+Qed.
+
+(* inscriptions *)
+Definition ins_ok (p : N * N) : Prop := fst p <= U32_MAX /\ snd p <= U64_MAX.
+Definition ins_bytes (p : N * N) : list N := le_bytes 4 (fst p) ++ encode (snd p).
+Definition ins_raw (l : list (N * N)) : list N := flat_map ins_bytes l.
+
+Lemma ins_raw_app a b : ins_raw (a ++ b) = ins_raw a ++ ins_raw b.
+Proof. apply flat_map_app. Qed.
+
+Lemma decode_unwrap_encode n rest : n < P128 ->
+  decode_unwrap (encode n ++ rest) = Ok (n, len (encode n)).
+Proof. intros H. unfold decode_unwrap. rewrite (decode_encode n rest H). reflexivity. Qed.
+
+Lemma parse_ins_raw l : Forall ins_ok l -> forall fuel, (length l <= fuel)%nat ->
+  parse_inscription_list fuel (ins_raw l) = Ok l.
+Proof.
+  induction 1 as [|[s o] l [Hs Ho] Hl IH]; intros fuel Hf; cbn [fst snd] in *.
+  - destruct fuel; reflexivity.
+  - destruct fuel as [|f]; [cbn in Hf; lia|].
+    unfold ins_raw. cbn [flat_map]. fold (ins_raw l). unfold ins_bytes at 1. cbn [fst snd].
+    rewrite <- app_assoc.
+    assert (L : length (le_bytes 4 s) = 4%nat) by apply le_bytes_length.
+    destruct (le_bytes 4 s ++ encode o ++ ins_raw l) as [|y ys] eqn:E.
+    { destruct (le_bytes 4 s); [discriminate L|discriminate E]. }
+    cbn [parse_inscription_list]. rewrite <- E.
+    rewrite len_app. unfold len at 1. rewrite L.
+    destruct (N.ltb_spec (N.of_nat 4 + len (encode o ++ ins_raw l)) 4) as [H|_]; [lia|].
+    rewrite (firstn_app_l 4) by exact L. rewrite (skipn_app_l 4) by exact L.
+    rewrite (le4_small s Hs).
+    rewrite decode_unwrap_encode by (unfold U64_MAX, P128 in *; lia). cbn [bind].
+    destruct (N.ltb_spec U64_MAX o) as [H|_]; [lia|].
+    unfold len. rewrite Nat2N.id. rewrite <- L at 1. rewrite skipn_add_app, skipn_length_app.
+    rewrite IH by (cbn in Hf; lia). reflexivity.
+Qed.
+
+Lemma ins_raw_length l : (length l <= length (ins_raw l))%nat.
+Proof.
+  induction l as [|p l IH]; [cbn; lia|].
+  unfold ins_raw. cbn [flat_map]. fold (ins_raw l). unfold ins_bytes at 1.
+  cbn [length]. rewrite !app_length, le_bytes_length. lia.
+Qed.
+
+(* the byte layout of an entry *)
+Definition sats_part (c : cfg) (raw : list N) (value : N) : list N :=
+  if index_sats c then encode (len raw / 11) ++ raw else encode value.
+Definition script_part (c : cfg) (script : list N) : list N :=
+  if index_addresses c then encode (len script) ++ script else [].
+Definition layout (c : cfg) (raw : list N) (value : N) (script ins : list N) : list N :=
+  sats_part c raw value ++ script_part c script ++ ins.
+
+(* builder calls that only append [raw] in state Valid *)
+Definition appends (c : cfg) (ops : list uop) (raw : list N) : Prop :=
+  forall vec, push_all c (vec, Valid) ops = Ok (vec ++ raw, Valid).
+
+Lemma appends_nil c : appends c [] [].
+Proof. intros vec. cbn [push_all]. now rewrite app_nil_r. Qed.
+
+Lemma appends_inscriptions c l : index_inscriptions c = true ->
+  appends c (map (fun p => OpInscription (fst p) (snd p)) l) (ins_raw l).
+Proof.
+  intros Hc. induction l as [|[s o] l IH]; intros vec; [apply appends_nil|].
+  cbn [map push_all push fst snd]. rewrite Hc. cbn [negb advance_state ustate_eqb bind].
+  rewrite IH. unfold ins_raw at 2. cbn [flat_map]. fold (ins_raw l). unfold ins_bytes. cbn [fst snd].
+  now rewrite <- !app_assoc.
+Qed.
+
+Lemma appends_raw2 c a b : index_inscriptions c = true ->
+  appends c [OpInscriptions a; OpInscriptions b] (a ++ b).
+Proof.
+  intros Hc vec. cbn [push_all push]. rewrite Hc. cbn [negb advance_state ustate_eqb bind push_all push].
+  rewrite ?Hc. cbn [negb advance_state ustate_eqb bind push_all].
+  now rewrite <- app_assoc.
+Qed.
+
+Lemma build_layout c raw k value script ops ins :
+  len raw = 11 * k -> appends c ops ins ->
+  build_ops c ((if index_sats c then [OpSatRanges raw] else [OpValue value]) ++
+               (if index_addresses c then [OpScript script] else []) ++ ops)
+  = Ok (layout c raw value script ins).
+Proof.
+  intros Hk Hops. unfold build_ops, layout, sats_part, script_part, ubuf_new.
+  assert (D : len raw / 11 * 11 =? len raw = true) by (rewrite Hk; lia).
+  destruct (index_sats c) eqn:Es; destruct (index_addresses c) eqn:Ea;
+    repeat (progress (cbn [app push_all push negb advance_state ustate_eqb bind]; rewrite ?Es, ?Ea, ?D));
+    rewrite Hops; cbn [bind as_ref ustate_eqb]; rewrite <- ?app_assoc; reflexivity.
+Qed.
+
+Lemma slice_mid a m r : slice (a ++ m ++ r) (len a) (len a + len m) = Ok m.
+Proof.
+  unfold slice. rewrite !len_app.
+  destruct (N.ltb_spec (len a + len m) (len a)) as [H|_]; [lia|].
+  destruct (N.ltb_spec (len a + (len m + len r)) (len a + len m)) as [H|_]; [lia|].
+  cbn [orb]. replace (len a + len m - len a) with (len m) by lia.
+  unfold len. rewrite !Nat2N.id, skipn_length_app, firstn_length_app. reflexivity.
+Qed.
+
+Lemma skipn_len1 a r : skipn (N.to_nat (len a)) (a ++ r) = r.
+Proof. unfold len. rewrite Nat2N.id. apply skipn_length_app. Qed.
+
+Lemma skipn_len2 a b r : skipn (N.to_nat (len a + len b)) (a ++ b ++ r) = r.
+Proof. rewrite <- len_app, app_assoc. apply skipn_len1. Qed.
+
+Lemma parse_layout c raw k value script ins :
+  len raw = 11 * k -> k <= U64_MAX ->
+  (index_sats c = false -> value <= U64_MAX) -> (index_addresses c = true -> len script <= U64_MAX) ->
+  parse c (layout c raw value script ins) =
+    Ok {| p_ranges := if index_sats c then Some raw else None;
+          p_value := if index_sats c then 0 else value;
+          p_script := if index_addresses c then Some script else None;
+          p_inscriptions := if index_inscriptions c then Some ins else None |}.
+Proof.
+  intros Hk Hku Hv Hs. unfold parse, layout, sats_part, script_part.
+  assert (Ek : len raw / 11 = k) by (rewrite Hk; lia).
+  assert (Pk : k < P128) by (unfold U64_MAX, P128 in *; lia).
+  destruct (index_sats c) eqn:Es; destruct (index_addresses c) eqn:Ea; rewrite ?Ek;
+    try (specialize (Hv eq_refl); assert (Pv : value < P128) by (unfold U64_MAX, P128 in *; lia));
+    try (specialize (Hs eq_refl); assert (Ps : len script < P128) by (unfold U64_MAX, P128 in *; lia)).
+  - (* sats, addresses *)
+    rewrite <- !app_assoc. rewrite decode_unwrap_encode by exact Pk. cbn [bind].
+    destruct (N.ltb_spec U64_MAX k) as [H|_]; [lia|].
+    replace (k * 11) with (len raw) by lia. rewrite slice_mid. cbn [bind].
+    rewrite skipn_len2.
+    rewrite decode_unwrap_encode by exact Ps. cbn [bind].
+    destruct (N.ltb_spec U64_MAX (len script)) as [H|_]; [lia|].
+    replace (encode k ++ raw ++ encode (len script) ++ script ++ ins)
+      with ((encode k ++ raw ++ encode (len script)) ++ script ++ ins) by (now rewrite <- !app_assoc).
+    replace (len (encode k) + len raw + len (encode (len script))) with (len (encode k ++ raw ++ encode (len script)))
+      by (rewrite !len_app; lia).
+    rewrite slice_mid. cbn [bind].
+    rewrite skipn_len2.
+    reflexivity.
+  - (* sats only *)
+    cbn [app]. rewrite <- ?app_assoc. rewrite decode_unwrap_encode by exact Pk. cbn [bind].
+    destruct (N.ltb_spec U64_MAX k) as [H|_]; [lia|].
+    replace (k * 11) with (len raw) by lia. rewrite slice_mid. cbn [bind].
+    rewrite skipn_len2.
+    reflexivity.
+  - (* value, addresses *)
+    rewrite <- !app_assoc. rewrite decode_unwrap_encode by exact Pv. cbn [bind].
+    destruct (N.ltb_spec U64_MAX value) as [H|_]; [lia|]. cbn [bind].
+    rewrite skipn_len1.
+    rewrite decode_unwrap_encode by exact Ps. cbn [bind].
+    destruct (N.ltb_spec U64_MAX (len script)) as [H|_]; [lia|].
+    replace (encode value ++ encode (len script) ++ script ++ ins)
+      with ((encode value ++ encode (len script)) ++ script ++ ins) by (now rewrite <- !app_assoc).
+    replace (len (encode value) + len (encode (len script))) with (len (encode value ++ encode (len script)))
+      by (rewrite !len_app; lia).
+    rewrite slice_mid. cbn [bind].
+    rewrite skipn_len2.
+    reflexivity.
+  - (* value only *)
+    cbn [app]. rewrite <- ?app_assoc. rewrite decode_unwrap_encode by exact Pv. cbn [bind].
+    destruct (N.ltb_spec U64_MAX value) as [H|_]; [lia|]. cbn [bind].
+    rewrite skipn_len1. reflexivity.
+Qed.
+
+Fixpoint total (l : list (N * N)) : N :=
+  match l with [] => 0 | (a, b) :: r => (b - a) + total r end.
+
+Lemma sum_ranges_total l : forall acc, acc + total l <= U64_MAX -> sum_ranges acc l = Ok (acc + total l).
+Proof.
+  induction l as [|[a b] l IH]; intros acc H; cbn [sum_ranges total] in *.
+  - f_equal. lia.
+  - destruct (N.ltb_spec U64_MAX (acc + (b - a))) as [H1|_]; [lia|].
+    rewrite IH by lia. f_equal. lia.
+Qed.
+
+Lemma total_app a b : total (a ++ b) = total a + total b.
+Proof. induction a as [|[x y] a IH]; cbn [app total]; [reflexivity|]. rewrite IH. lia. Qed.
+
+(* well-formed logical content under a configuration: components that the configuration does
+   not store are empty; sizes fit the machine types *)
+Definition wf (c : cfg) (e : utxo) : Prop :=
+  Forall range_ok (u_ranges e) /\ count (u_ranges e) <= U64_MAX /\
+  (if index_sats c then u_value e = total (u_ranges e) else u_ranges e = []) /\ u_value e <= U64_MAX /\
+  (if index_addresses c then len (u_script e) <= U64_MAX else u_script e = []) /\
+  (if index_inscriptions c then Forall ins_ok (u_inscriptions e) else u_inscriptions e = []).
+
+Definition entry_layout (c : cfg) (e : utxo) : list N :=
+  layout c (ranges_raw (u_ranges e)) (u_value e) (u_script e)
+         (if index_inscriptions c then ins_raw (u_inscriptions e) else []).
+
+Lemma write_entry_layout c e : wf c e -> write_entry c e = Ok (entry_layout c e).
+Proof.
+  intros (Hr & Hc & _ & _ & _ & _). unfold write_entry, entry_layout.
+  rewrite (store_ranges_ok _ Hr). cbn [bind]. unfold entry_ops.
+  apply (build_layout c _ (count (u_ranges e))); [apply ranges_raw_len|].
+  destruct (index_inscriptions c) eqn:Ei; [now apply appends_inscriptions|apply appends_nil].
+Qed.
+
+Lemma read_entry_layout c e : wf c e -> read_entry c (entry_layout c e) = Ok e.
+Proof.
+  intros (Hr & Hc & Hv & Hvu & Hs & Hi). destruct e as [l value script il]. cbn [u_ranges u_value u_script u_inscriptions] in *.
+  unfold read_entry, entry_layout. cbn [u_ranges u_value u_script u_inscriptions].
+  rewrite (parse_layout c _ (count l)); [|apply ranges_raw_len|exact Hc|intros _; exact Hvu|].
+  2:{ intros Ea. now rewrite Ea in Hs. }
+  cbn [bind]. unfold total_value. cbn [p_ranges p_value p_script p_inscriptions].
+  destruct (index_sats c) eqn:Es.
+  - rewrite (ranges_of_raw l Hr). cbn [bind].
+    rewrite (sum_ranges_total l 0) by lia. cbn [bind]. replace (0 + total l) with value by lia.
+    destruct (index_inscriptions c) eqn:Ei; destruct (index_addresses c) eqn:Ea; subst; cbn [bind];
+      try (rewrite parse_ins_raw by (try exact Hi; apply ins_raw_length)); reflexivity.
+  - cbn [bind]. subst l.
+    destruct (index_inscriptions c) eqn:Ei; destruct (index_addresses c) eqn:Ea; subst; cbn [bind];
+      try (rewrite parse_ins_raw by (try exact Hi; apply ins_raw_length)); reflexivity.
+Qed.
+
+Theorem utxo_entry_roundtrip c e : wf c e ->
+  exists bs, write_entry c e = Ok bs /\ read_entry c bs = Ok e.
+Proof.
+  intros H. exists (entry_layout c e). split; [now apply write_entry_layout|now apply read_entry_layout].
+Qed.
+
+Lemma layout_value_irrelevant c raw v1 v2 s i : index_sats c = true -> layout c raw v1 s i = layout c raw v2 s i.
+Proof. intros H. unfold layout, sats_part. now rewrite H. Qed.
+
+Definition merged_entry (ea eb : utxo) : utxo :=
+  {| u_ranges := u_ranges ea ++ u_ranges eb; u_value := u_value ea + u_value eb; u_script := [];
+     u_inscriptions := u_inscriptions ea ++ u_inscriptions eb |}.
+
+(* operands the updater merges: the lost-sats and unbound-inscriptions pseudo-outputs carry no
+   script and, without the sat index, no value *)
+Definition mergeable (c : cfg) (ea eb : utxo) : Prop :=
+  wf c ea /\ wf c eb /\ u_script ea = [] /\ u_script eb = [] /\
+  (index_sats c = false -> u_value ea = 0 /\ u_value eb = 0) /\
+  u_value ea + u_value eb <= U64_MAX /\ count (u_ranges ea) + count (u_ranges eb) <= U64_MAX.
+
+Lemma merged_wf c ea eb : mergeable c ea eb -> wf c (merged_entry ea eb).
+Proof.
+  intros ((Hra & Hca & Hva & Hua & Hsa & Hia) & (Hrb & Hcb & Hvb & Hub & Hsb & Hib) & Sa & Sb & Hz & Hsum & Hcnt).
+  unfold wf, merged_entry. cbn [u_ranges u_value u_script u_inscriptions].
+  split; [apply Forall_app; now split|].
+  split; [unfold count in *; rewrite app_length; lia|].
+  split.
+  { destruct (index_sats c); [rewrite total_app; lia|]. now rewrite Hva, Hvb. }
+  split; [exact Hsum|].
+  split; [destruct (index_addresses c); [cbn; unfold U64_MAX; lia|reflexivity]|].
+  destruct (index_inscriptions c); [apply Forall_app; now split|]. now rewrite Hia, Hib.
+Qed.
+
+Lemma merged_layout c ea eb : mergeable c ea eb ->
+  merged c (entry_layout c ea) (entry_layout c eb) = Ok (entry_layout c (merged_entry ea eb)).
+Proof.
+  intros M. pose proof M as ((Hra & Hca & Hva & Hua & Hsa & Hia) & (Hrb & Hcb & Hvb & Hub & Hsb & Hib) & Sa & Sb & Hz & Hsum & Hcnt).
+  unfold merged, entry_layout.
+  rewrite (parse_layout c _ (count (u_ranges ea))); [|apply ranges_raw_len|exact Hca|intros _; exact Hua|].
+  2:{ intros Ea. now rewrite Ea in Hsa. }
+  cbn [bind].
+  rewrite (parse_layout c _ (count (u_ranges eb))); [|apply ranges_raw_len|exact Hcb|intros _; exact Hub|].
+  2:{ intros Ea. now rewrite Ea in Hsb. }
+  cbn [bind]. unfold total_value. cbn [p_ranges p_value p_script p_inscriptions].
+  unfold merged_entry. cbn [u_ranges u_value u_script u_inscriptions].
+  rewrite Sa, Sb.
+  pose proof (build_layout c (ranges_raw (u_ranges ea) ++ ranges_raw (u_ranges eb))
+                (count (u_ranges ea) + count (u_ranges eb)) 0 []
+                (if index_inscriptions c then [OpInscriptions (ins_raw (u_inscriptions ea)); OpInscriptions (ins_raw (u_inscriptions eb))] else [])
+                (if index_inscriptions c then ins_raw (u_inscriptions ea) ++ ins_raw (u_inscriptions eb) else [])) as B.
+  assert (HL : len (ranges_raw (u_ranges ea) ++ ranges_raw (u_ranges eb)) = 11 * (count (u_ranges ea) + count (u_ranges eb))).
+  { rewrite len_app, !ranges_raw_len. lia. }
+  assert (B' := B HL). clear B.
+  assert (Happ : appends c
+     (if index_inscriptions c then [OpInscriptions (ins_raw (u_inscriptions ea)); OpInscriptions (ins_raw (u_inscriptions eb))] else [])
+     (if index_inscriptions c then ins_raw (u_inscriptions ea) ++ ins_raw (u_inscriptions eb) else [])).
+  { destruct (index_inscriptions c) eqn:Ei; [now apply appends_raw2|apply appends_nil]. }
+  specialize (B' Happ). clear Happ.
+  rewrite ranges_raw_app, ins_raw_app.
+  destruct (index_sats c) eqn:Es.
+  - cbn [bind].
+    replace (layout c (ranges_raw (u_ranges ea) ++ ranges_raw (u_ranges eb)) (u_value ea + u_value eb) [] 
+              (if index_inscriptions c then ins_raw (u_inscriptions ea) ++ ins_raw (u_inscriptions eb) else []))
+      with (layout c (ranges_raw (u_ranges ea) ++ ranges_raw (u_ranges eb)) 0 [] 
+              (if index_inscriptions c then ins_raw (u_inscriptions ea) ++ ins_raw (u_inscriptions eb) else []))
+      by (now apply layout_value_irrelevant).
+    rewrite <- B'.
+    destruct (index_addresses c) eqn:Ea; destruct (index_inscriptions c) eqn:Ei; cbn [bind is_nil negb app]; reflexivity.
+  - destruct (Hz eq_refl) as [Za Zb]. rewrite Za, Zb. cbn [bind].
+    change (0 =? 0) with true. cbn [negb bind]. change (0 + 0) with 0.
+    rewrite <- B'.
+    destruct (index_addresses c) eqn:Ea; destruct (index_inscriptions c) eqn:Ei; cbn [bind is_nil negb app]; reflexivity.
+Qed.
+
+Theorem merged_keeps_both c ea eb : mergeable c ea eb ->
+  exists a b m, write_entry c ea = Ok a /\ write_entry c eb = Ok b /\ merged c a b = Ok m /\
+                read_entry c m = Ok (merged_entry ea eb).
+Proof.
+  intros M. pose proof M as (Wa & Wb & _).
+  exists (entry_layout c ea), (entry_layout c eb), (entry_layout c (merged_entry ea eb)).
+  split; [now apply write_entry_layout|]. split; [now apply write_entry_layout|].
+  split; [now apply merged_layout|]. apply read_entry_layout. now apply merged_wf.
+Qed.
+
+(* UtxoEntryBuf::empty is the entry with no content *)
+Lemma empty_layout c : utxo_empty c = Ok (entry_layout c {| u_ranges := []; u_value := 0; u_script := []; u_inscriptions := [] |}).
+Proof.
+  unfold utxo_empty, entry_layout. cbn [u_ranges u_value u_script u_inscriptions].
+  pose proof (build_layout c [] 0 0 [] [] [] eq_refl (appends_nil c)) as B.
+  rewrite app_nil_r in B. rewrite B. unfold ranges_raw, ins_raw. cbn [flat_map].
+  destruct (index_inscriptions c); reflexivity.
+Qed.
+
+(* the packing uses all 88 bits: every 11-byte value is the image of exactly the range it loads to *)
+Theorem sat_range_value_roundtrip v : length v = 11%nat -> bytes v ->
+  exists r, sat_range_load v = Ok r /\ range_ok r /\ sat_range_store r = Ok v.
+Proof.
+  intros Hl Hb.
+  pose proof (le_bytes_le_value' 11 v Hl Hb) as E.
+  pose proof (le_value_bound v Hb) as B. rewrite Hl in B. change (2 ^ (8 * N.of_nat 11)) with P88 in B.
+  set (n := le_value v) in *.
+  exists (n mod P51, n mod P51 + (n / P51) mod P37).
+  split; [rewrite <- E; apply sat_range_load_le|].
+  assert (H1 : n mod P51 < P51) by (unfold P51; lia).
+  assert (H2 : n mod P51 + (n / P51) mod P37 - n mod P51 = (n / P51) mod P37)
+    by (generalize (n mod P51), ((n / P51) mod P37); intros; lia).
+  split.
+  { unfold range_ok. cbn [fst snd]. rewrite H2. split; [exact H1|]. split; [generalize (n mod P51), ((n / P51) mod P37); intros; lia|unfold P37; lia]. }
+  rewrite sat_range_store_ok by (try exact H1; generalize (n mod P51), ((n / P51) mod P37); intros; lia). rewrite H2.
+  replace (n mod P51 + (n / P51) mod P37 * P51) with n by (unfold P51, P37, P88 in *; lia).
+  now rewrite E.
+Qed.
